@@ -545,7 +545,7 @@ func runC09(c *core.Ctx, idx int) {
 	touchedEnt := map[string]bool{}
 	classCount := map[string]int{}
 	classLimit := map[string]int{"unique-missing": 3, "set-missing-entry": 2} // several entities can miss their entries at once
-	pairedRole := ""                                                           // a missing entry and dangling references share one value bucket
+	pairedRole := ""                                                          // a missing entry and dangling references share one value bucket
 	for _, j := range r.Perm(len(all)) {
 		cand := all[j]
 		// a bounded number of corruptions per class and no stacking of entity-field rewrites on the same description
